@@ -4,12 +4,14 @@ import json, glob, os, re, collections
 ROOT = os.path.dirname(os.path.dirname(os.path.abspath(__file__)))
 out = []
 out.append("### 6.5 Which checks catch which changes\n")
-out.append("Independent seeded changes (all invisible to the 184 pinned tests; every one is caught by the quick tier):\n")
+metas = [json.load(open(d)) for d in sorted(glob.glob(os.path.join(ROOT, "seeded", "*", "meta.json")))]
+uncaught = [m["name"] for m in metas if not m["caught_by_quick_checks"]]
+out.append("Independent seeded changes (all invisible to the 184 pinned tests). %d archived, %d caught by the quick tier; NOT caught: %s (see 6.4).\n" % (len(metas), len(metas) - len(uncaught), ", ".join("`%s`" % u for u in uncaught) or "none"))
 out.append("| seeded change | property | needs, to manifest | caught by (quick) |")
 out.append("|---|---|---|---|")
 for d in sorted(glob.glob(os.path.join(ROOT, "seeded", "*", "meta.json"))):
     m = json.load(open(d))
-    out.append("| `%s` | %s | %s | %s |" % (m["name"], m["property"], m["needs_to_manifest"].replace("|", "/"), " ".join(m["caught_by_quick_checks"])))
+    out.append("| `%s` | %s | %s | %s |" % (m["name"], m["property"], m["needs_to_manifest"].replace("|", "/"), " ".join(m["caught_by_quick_checks"]) or "**none**"))
 res = os.path.join(ROOT, "selftest", "RESULTS.quick.tsv")
 if os.path.exists(res):
     rows = [l.rstrip("\n").split("\t") for l in open(res) if l.strip()]
